@@ -40,10 +40,16 @@ CONSTANTS Source,        \* "enum" | "file"
 \*          reexp  a class defined in a private module and re-exported through __all__ of its package: after its module is
 \*                 built the class is MOVED (pkg._impl.K -> pkg.K, model.Documentable.reparent); the name recorded in
 \*                 parse_errors is then the name of nothing
-ObjCfg == [shape : {"func", "class", "reexp"}, fmt : {"rst", "epy"}, xref : BOOLEAN, field : BOOLEAN, nerr : 0..2, expr : BOOLEAN, regex : BOOLEAN]
+\*          dup    a class defined TWICE in its module; the first definition carries the markup errors, the second is clean.
+\*                 System.handleDuplicate renames the first one ("K" -> "K 0") when the second is met: the name recorded in
+\*                 parse_errors now designates the clean definition.  The superseded definition has no page: nothing of
+\*                 it is ever rendered, so it can only have build-phase problems
+\*          dup2   the same, the SECOND definition carries the problems (nothing is renamed after the report)
+ObjCfg == [shape : {"func", "class", "reexp", "dup", "dup2"}, fmt : {"rst", "epy"}, xref : BOOLEAN, field : BOOLEAN, nerr : 0..2, expr : BOOLEAN, regex : BOOLEAN]
 \* a fatal epytext error turns the whole docstring into plain text: nothing else in it is markup any more
 Realisable(c) == /\ (c.fmt = "epy" => (c.nerr <= 1 /\ (c.nerr = 1 => ~c.xref /\ ~c.field)))
                  /\ (c.shape # "func" => ~c.expr /\ ~c.regex)
+                 /\ (c.shape = "dup" => ~c.xref /\ ~c.field /\ c.nerr > 0)
 Clean(c) == ~c.xref /\ ~c.field /\ c.nerr = 0 /\ ~c.expr /\ ~c.regex
 Menu == {c \in ObjCfg : c.shape = "func" /\ c.fmt = "rst" /\ ~c.xref /\ ~c.field /\ ~c.expr /\ ~c.regex /\ c.nerr <= 1}
 Events(o, c) == (IF c.xref THEN {[o |-> o, kind |-> "xref", n |-> 1]} ELSE {})
@@ -65,9 +71,10 @@ VARIABLES tid,         \* 0 (enum) or the index of the trace being validated
           printed,     \* number of "<path>:<line>: ..." problem lines written to stdout
           sumlines,    \* number of summary lines written by main
           met,         \* ghost: problems met so far, as records [kind, o, n]
+          named,       \* enum: per object, the printed problem lines that name the file holding its docstring; file: 0
           moved,       \* enum: the re-exported objects that have been moved already; file: the <<old name, new name>> pairs seen
           exit         \* -1 while running, else the value returned by main
-vars == <<tid, cfg, W, V, todo, violations, perr, printed, sumlines, met, moved, exit>>
+vars == <<tid, cfg, W, V, todo, violations, perr, printed, sumlines, met, named, moved, exit>>
 
 InitEnum == /\ Source = "enum" /\ tid = 0
             /\ cfg \in [Objs -> {c \in ObjCfg : Realisable(c)}]
@@ -79,25 +86,28 @@ InitFile == /\ Source = "file" /\ tid \in 1..Len(Traces) /\ cfg = 0
             /\ todo = 1
 Init == /\ (InitEnum \/ InitFile)
         /\ violations = 0 /\ perr = {} /\ printed = 0 /\ sumlines = 0 /\ met = {} /\ moved = {} /\ exit = 0 - 1
+        /\ named = IF Source = "enum" THEN [o \in Objs |-> 0] ELSE 0
 
 \* ------------------------------------------------------------------ the mechanism
 Shown(thresh, top) == thresh <= V /\ V <= top                       \* model.py:1070
 Counted(thresh) == IF thresh < 0 THEN 1 ELSE 0                        \* model.py:1064-1068
-\* Documentable.report -> System.msg(section, "<path>:<line>: ..", thresh=-1)
-ReportN(n) == /\ violations' = violations + n * Counted(0 - 1)
-              /\ printed' = printed + (IF Shown(0 - 1, 100) THEN n ELSE 0)
+\* Documentable.report -> System.msg(section, "<path>:<line>: ..", thresh=-1); <path> = Documentable.description
+\* (model.py:200-209) = the object's OWN source_path: the file it was defined in, wherever it has been moved since
+ReportN(o, n) == /\ violations' = violations + n * Counted(0 - 1)
+                 /\ printed' = printed + (IF Shown(0 - 1, 100) THEN n ELSE 0)
+                 /\ named' = IF Source = "enum" THEN [named EXCEPT ![o] = @ + (IF Shown(0 - 1, 100) THEN n ELSE 0)] ELSE named
 \* epydoc2stan.reportErrors(obj, errs, section)
-ReportErrors(section, o, n) ==
-    IF <<section, o>> \in perr
-      THEN UNCHANGED <<violations, printed, perr>>                    \* already reported for this object: nothing at all
-      ELSE perr' = perr \cup {<<section, o>>} /\ ReportN(n)
+ReportErrors(section, nm, o, n) ==
+    IF <<section, nm>> \in perr
+      THEN UNCHANGED <<violations, printed, perr, named>>             \* already reported for this name: nothing at all
+      ELSE perr' = perr \cup {<<section, nm>>} /\ ReportN(o, n)
 Section(kind) == IF kind = "expr" THEN "signature" ELSE "docstring"
 
 \* the name an object is known by right now (what obj.fullName() returns): it changes when the object is moved
 Name(o) == <<o, o \in moved>>
 \* found while the module is built (before any move) / while the pages are rendered (after every move)
 BuildPhase(e) == e.kind = "parse" /\ cfg[e.o].shape # "func"
-ToMove == {o \in Objs : cfg[o].shape = "reexp" /\ o \notin moved}
+ToMove == {o \in Objs : cfg[o].shape \in {"reexp", "dup"} /\ o \notin moved}
 Key(e) == (IF BuildPhase(e) THEN 0 ELSE 100) + 10 * e.o + Order(e)
 \* enum: meet one planted problem
 Meet(e) == /\ exit = 0 - 1 /\ Source = "enum" /\ e \in todo
@@ -106,14 +116,15 @@ Meet(e) == /\ exit = 0 - 1 /\ Source = "enum" /\ e \in todo
            /\ (~BuildPhase(e) => ToMove = {} /\ \A f \in todo : ~BuildPhase(f))
            /\ todo' = todo \ {e}
            /\ met' = met \cup {e}
-           /\ IF e.kind \in {"parse", "expr"} THEN ReportErrors(Section(e.kind), Name(e.o), e.n)
-              ELSE ReportN(1) /\ UNCHANGED perr
+           /\ IF e.kind \in {"parse", "expr"} THEN ReportErrors(Section(e.kind), Name(e.o), e.o, e.n)
+              ELSE ReportN(e.o, 1) /\ UNCHANGED perr
            /\ UNCHANGED <<sumlines, moved, exit>>
-\* astbuilder: __all__ of the package re-exports the class: reparent().  Nothing is recorded anywhere about the old name.
+\* astbuilder: __all__ of the package re-exports the class: reparent() / a second definition supersedes the first:
+\* handleDuplicate().  Nothing is recorded anywhere about the old name.
 Move(o) == /\ exit = 0 - 1 /\ Source = "enum" /\ o \in ToMove
            /\ \A f \in todo : ~(BuildPhase(f) /\ f.o = o)             \* its module has been built
            /\ moved' = moved \cup {o}
-           /\ UNCHANGED <<todo, violations, perr, printed, sumlines, met, exit>>
+           /\ UNCHANGED <<todo, violations, perr, printed, sumlines, met, named, exit>>
 \* names in parse_errors that no longer designate an object
 Stale == {p \in perr : p[2] # Name(p[2][1])}
 
@@ -125,7 +136,7 @@ Finish == /\ exit = 0 - 1 /\ Source = "enum" /\ todo = {} /\ ToMove = {}
           /\ violations' = violations + SummaryMsgs * Counted(0 - 1)
           /\ sumlines' = sumlines + (IF Shown(0 - 1, 1) THEN SummaryMsgs ELSE 0)
           /\ exit' = ExitCode(violations')
-          /\ UNCHANGED <<todo, perr, printed, met, moved>>
+          /\ UNCHANGED <<todo, perr, printed, met, named, moved>>
 
 \* ------------------------------------------------------------------ file: validate a recorded run
 Ev == Traces[tid].ev[todo]
@@ -134,9 +145,9 @@ TMsg == /\ Source = "file" /\ exit = 0 - 1 /\ todo <= Len(Traces[tid].ev) /\ Ev.
         /\ violations' = Ev.v                                           \* the logged counter
         /\ printed' = printed + (IF Ev.problem /\ Shown(Ev.thresh, Ev.top) THEN 1 ELSE 0)
         /\ (Ev.problem => Ev.shown = Shown(Ev.thresh, Ev.top))
-        /\ UNCHANGED <<perr, sumlines, met, moved, exit>>
+        /\ UNCHANGED <<perr, sumlines, met, named, moved, exit>>
 TReportErrors == /\ Source = "file" /\ exit = 0 - 1 /\ todo <= Len(Traces[tid].ev) /\ Ev.op = "reportErrors"
-                 /\ ReportErrors(Ev.section, Ev.o, Ev.n)
+                 /\ ReportErrors(Ev.section, Ev.o, 0, Ev.n)
                  /\ violations' = Ev.v
                  /\ (<<Ev.section, Ev.o>> \in perr') = Ev.has
                  /\ met' = met \cup {[kind |-> (IF Ev.section = "docstring" THEN "parse" ELSE "expr"), o |-> Ev.o, n |-> Ev.n]}
@@ -145,12 +156,12 @@ TReportErrors == /\ Source = "file" /\ exit = 0 - 1 /\ todo <= Len(Traces[tid].e
 TMove == /\ Source = "file" /\ exit = 0 - 1 /\ todo <= Len(Traces[tid].ev) /\ Ev.op = "move"
          /\ moved' = moved \cup {<<Ev.o, Ev.to>>}
          /\ Ev.v = violations /\ Ev.perr = Cardinality(perr)
-         /\ UNCHANGED <<violations, perr, printed, sumlines, met, exit>>
+         /\ UNCHANGED <<violations, perr, printed, sumlines, met, named, exit>>
 TExit == /\ Source = "file" /\ exit = 0 - 1 /\ todo <= Len(Traces[tid].ev) /\ Ev.op = "exit"
          /\ Ev.code = ExitCode(violations)
          /\ Ev.perr = Cardinality(perr)
          /\ exit' = Ev.code
-         /\ UNCHANGED <<violations, perr, printed, sumlines, met, moved>>
+         /\ UNCHANGED <<violations, perr, printed, sumlines, met, named, moved>>
 TraceNext == (TMsg \/ TReportErrors \/ TMove \/ TExit) /\ todo' = todo + 1
 
 Next == /\ \/ \E e \in (IF Source = "enum" THEN todo ELSE {}) : Meet(e)
@@ -169,6 +180,11 @@ EveryReportCounted == printed <= violations
 ExitW == (Done /\ W) => (exit = 3 <=> printed > 0)
 \* no -W: status 2 exactly when something could not be parsed, 0 otherwise
 ExitNoW == (Done /\ ~W) => (exit = (IF Unparsed THEN 2 ELSE 0))
+\* every printed problem names the file that contains the docstring at fault (trivial in the model: ReportN is the only
+\* printer; the harness compares named[o] with the lines that name o's file and flags every line naming another file)
+RECURSIVE SumNamed(_)
+SumNamed(S) == IF S = {} THEN 0 ELSE LET o == CHOOSE x \in S : TRUE IN named[o] + SumNamed(S \ {o})
+NamesTheFile == (Done /\ Source = "enum") => SumNamed(Objs) = printed
 \* a problem reported under a name that went stale afterwards is a reported problem all the same
 StaleStillCounts == (Done /\ Source = "enum" /\ ~W /\ Stale # {}) => exit = 2
 \* enum only: nothing that was planted is lost: one line per problem, one per markup error (n is 1 or 2)
@@ -178,7 +194,7 @@ NothingLost == (Done /\ Source = "enum") => printed = Cardinality(met) + Cardina
 EmitTerminal == (Done /\ Source = "enum") =>
     PrintT(ToJson([cfg |-> [o \in Objs |-> cfg[o]], objs |-> Cardinality(Objs), W |-> W, V |-> V, exit |-> exit, violations |-> violations,
                    printed |-> printed, sumlines |-> sumlines, perr |-> Cardinality(perr),
-                   unparsed |-> Unparsed, stale |-> Cardinality(Stale)]))
+                   unparsed |-> Unparsed, stale |-> Cardinality(Stale), named |-> [o \in Objs |-> named[o]]]))
 Accept == (Source = "file" /\ Done /\ todo = Len(Traces[tid].ev) + 1) => TLCSet(1, TLCGet(1) \cup {tid})
 Post == IF Source = "file" THEN PrintT(ToJson([accepted |-> TLCGet(1), total |-> Len(Traces)])) ELSE TRUE
 =============================================================================
